@@ -83,6 +83,16 @@ Fixpoint check_http (with_monitor : bool) (st : hp_state) (spec : list (route Z)
             | None => (spec, hp_out_eqb out HRegConflict, 5)
             end
         | HGroupLeave d l u => (rs_del spec d l u, true, 0)
+        | HConnect host user => (spec, hp_out_eqb out (hp_spec_out (fun z => z) spec host [] user), 7)
+        | HBeginRaced _ _ _ host path user _ between =>
+            (* either order is acceptable for a request that overlaps a route change *)
+            let spec2 := match between with
+                         | HRegister d l u owner => match rs_add spec d l u owner with Some sp => sp | None => spec end
+                         | HUnRegister d l u => rs_del spec d l u
+                         | _ => spec
+                         end in
+            (spec2, hp_out_eqb out (hp_spec_out (fun z => z) spec host path user) ||
+                    hp_out_eqb out (hp_spec_out (fun z => z) spec2 host path user), 7)
         end in
       match mon with
       | (spec', ok, why) =>
@@ -142,6 +152,16 @@ Fixpoint C06_holds_http (spec : list (route Z)) (ops : list (hp_op * hp_out)) : 
       | None => hp_out_eqb out HRegConflict && C06_holds_http spec r
       end
   | (HGroupLeave d l u, _) :: r => C06_holds_http (rs_del spec d l u) r
+  | (HConnect host user, out) :: r =>
+      hp_out_eqb out (hp_spec_out (fun z => z) spec host [] user) && C06_holds_http spec r
+  | (HBeginRaced _ _ _ host path user _ between, out) :: r =>
+      let spec2 := match between with
+                   | HRegister d l u owner => match rs_add spec d l u owner with Some sp => sp | None => spec end
+                   | HUnRegister d l u => rs_del spec d l u
+                   | _ => spec
+                   end in
+      (hp_out_eqb out (hp_spec_out (fun z => z) spec host path user) ||
+       hp_out_eqb out (hp_spec_out (fun z => z) spec2 host path user)) && C06_holds_http spec2 r
   end.
 
 Definition C06_holds (c : case) : bool :=
@@ -190,6 +210,7 @@ Definition http_counter (what : Z) (c : case) : Z :=
                 (if (what =? 1) && hp_out_eqb out HNotFound then 1 else 0) +
                 (if (what =? 2) && (proto =? 1) then 1 else 0)
             | (HRegister _ _ _ _, out) => if (what =? 3) && hp_out_eqb out HRegConflict then 1 else 0
+            | (HConnect _ _, out) => if (what =? 4) && negb (hp_out_eqb out HNotFound) then 1 else 0
             | _ => 0
             end) ops 0
   | _ => 0
